@@ -223,7 +223,10 @@ def run_campaign(binp, seed, seconds, rounds, tag, mode="load", extra=None):
     cmd = [binp, "-seed", str(seed), "-seconds", str(seconds), "-rounds", str(rounds), "-mode", mode, "-out", rep] + (extra or [])
     t0 = time.time()
     rc, out = C.sh(cmd, env=env, timeout=int(seconds) * 4 + 600)
-    res = {"rc": rc, "cmd": "GORACE='%s' %s" % (env["GORACE"], " ".join(cmd)), "out": out[-8000:], "wall": time.time() - t0,
+    crash = re.search(r"^(panic: .*|fatal error: .*)$", out, re.M)
+    if len(out) > 16000:
+        out = out[:8000] + "\n[...]\n" + out[-8000:]
+    res = {"rc": rc, "cmd": "GORACE='%s' %s" % (env["GORACE"], " ".join(cmd)), "out": out, "crash": crash.group(1) if crash else None, "wall": time.time() - t0,
            "report": None, "race_logs": sorted(glob.glob(os.path.join(rdir, "race.*")))}
     try:
         res["report"] = json.load(open(rep))
@@ -254,7 +257,17 @@ def summarize_dynamic(runs, tb):
             for k, v in (rep.get("received_by_type") or {}).items():
                 stats["received_by_type"][k] = stats["received_by_type"].get(k, 0) + v
             if rep.get("wedge"):
-                findings.append({"kind": "deadlock", "what": rep["wedge"]["reason"], "detail": rep["wedge"]["goroutines"][:200000], "cmd": r["cmd"]})
+                what = rep["wedge"]["reason"]
+                dump = rep["wedge"]["goroutines"]
+                for g in dump.split("\n\n"):
+                    if "[chan send" in g.split("\n")[0] and "websocket.(*handler).disconnect" in g:
+                        what += " [a main loop is blocked in websocket.(*handler).disconnect: blocking send on its own full disconnectChan]"
+                        break
+                    if ("[sync.Mutex.Lock" in g.split("\n")[0] or "[sync.RWMutex" in g.split("\n")[0]) and "aukilabs/hagall" in g:
+                        fr = [l for l in g.split("\n") if l.startswith("github.com/aukilabs/hagall")]
+                        what += " [a goroutine is blocked on a lock in %s]" % (fr[0].split("(0x")[0] if fr else "?")
+                        break
+                findings.append({"kind": "deadlock", "what": what, "detail": dump[:200000], "cmd": r["cmd"]})
             if rep.get("server_panics"):
                 findings.append({"kind": "panic", "what": "%d handler panics under concurrent load, e.g. %s" % (
                     rep["server_panics"], (rep.get("panic_samples") or ["?"])[0].split("\n")[0]),
@@ -262,9 +275,8 @@ def summarize_dynamic(runs, tb):
             for o in rep.get("orphaned_module_state") or []:
                 findings.append({"kind": "orphaned-module-state", "what": o, "detail": o, "cmd": r["cmd"]})
         if r["rc"] not in (0, 3) or (r["rc"] == 3 and not (rep and rep.get("wedge"))):
-            crash = re.search(r"^(panic: .*|fatal error: .*)$", r["out"], re.M)
-            if crash:
-                findings.append({"kind": "crash", "what": "the server process crashed under concurrent load: " + crash.group(1),
+            if r.get("crash"):
+                findings.append({"kind": "crash", "what": "the server process crashed under concurrent load: " + r["crash"],
                                  "detail": r["out"], "cmd": r["cmd"]})
             else:
                 findings.append({"kind": "internal", "what": "harness exit code %d" % r["rc"], "detail": r["out"], "cmd": r["cmd"]})
@@ -311,6 +323,11 @@ def run(tier, replay):
         okC, logC = C.coq_make(["Locks.vo", "GenLocks.vo", "proofs/LocksProofs.vo", "Properties/C09.vo"])
         obl = eval_obligations()
         info = C.property_file_info(PID)
+        chk = None
+        if thorough and info["ok"]:
+            rcq, outq = C.sh(["coqchk", "-silent", "-o", "-Q", ".", "hagall", "hagall.Properties.C09"], cwd=C.COQ, timeout=1800)
+            chk = {"rc": rcq, "tail": outq[-600:]}
+            print("coqchk hagall.Properties.C09: rc=%d" % rcq)
         okH, logH, binp = C.build_harness("c09", race=True)
     tb = tables()
     print("tables + Coq + harness build: %.1fs" % (time.time() - tl))
@@ -420,7 +437,7 @@ def run(tier, replay):
         exempt[a["exempt"] or "checked"] = exempt.get(a["exempt"] or "checked", 0) + 1
     nontrivial = len({(a["field"], a["write"], tuple(sorted(a["held"].items()))) for a in (tb["accesses"] if nacc else []) if not a["exempt"] and a["held"]})
     coverage = {
-        "obligations": len(info["theorems"]) or 10, "discharged": len(info["theorems"]) if info["ok"] else max(0, len(info["theorems"]) - len(failed) - 1),
+        "obligations": len(info["theorems"]) or 10, "discharged": len(info["theorems"]) if info["ok"] else (4 if os.path.exists(os.path.join(C.COQ, "proofs", "LocksProofs.vo")) else 0) + sum(1 for k in OBLIGATIONS if vals.get(k)),
         "checker_cmd": "coqc -Q coq hagall coq/Properties/C09.v",
         "theorems": info["theorems"], "print_assumptions": {"closed": info.get("closed"), "axioms": info.get("axioms")},
         "generated_obligations": vals, "failed_obligations": failed, "static_reasons": static_reasons[:20],
@@ -448,6 +465,7 @@ def run(tier, replay):
         "distribution": {"ops_by_kind": stats["ops_by_kind"], "received_by_type": stats["received_by_type"], "rounds": stats["rounds"]},
         "dynamic": {k: stats[k] for k in ("requests", "connections", "max_concurrent_connections", "load_seconds", "sessions", "barriers", "reconnects", "race_reports_total", "race_reports_hagall")},
         "init_storm": {"trials": sum((r["report"] or {}).get("init_trials", 0) for r in runs), "overlapping": sum((r["report"] or {}).get("init_overlaps", 0) for r in runs)},
+        "coqchk": chk,
         "cross_validation_of_static_tables": "not implemented (dynamic lock-order edges are not recorded); the race detector runs validate the lockset table only on executed paths",
     }
     assumptions = ["clients keep reading what they are sent", "at most schedulerQueueSize (256) unprocessed requests per connection",
